@@ -13,7 +13,14 @@ SPEC = {
         {"dialect": "inferiors", "quick_n": 10000, "thorough_n": 200000},
         {"dialect": "getmatches", "quick_n": 30000, "thorough_n": 600000, "judge": "judge-c14-getmatches"},
     ],
-    "oracles": [],
+    "oracles": [
+        # (agent-wire) wire level: whole server over TCP, 1-2 sessions + dummy connector, delimiters / . | and backslash;
+        # generated CREATE / DELETE / RENAME / SUBSCRIBE / UNSUBSCRIBE + connector mailbox updates; tie to
+        # Model/NamespaceSubs.lean (result classes, final LIST/LSUB), reference rules (judge-c14-nsops) and RFC selection
+        # of every LIST/LSUB answer (judge-c14-wirelist). Directed histories: corpus/C14/*.namespace
+        {"name": "c14namespace", "quick_args": ["-n", "150", "-steps", "10", "-queries", "6"],
+         "thorough_args": ["-n", "10000", "-steps", "12", "-queries", "8"], "timeout": 2400},
+    ],
     "trusted_base": [
         "Lean 4.33.0 kernel; axioms limited to propext, Classical.choice, Quot.sound (audited per theorem)",
         "hand-written model GluonModel/Model/Match.lean of match/matchRoot/canon/getMatches/prepareMatch (internal/state/match.go) and listSuperiors/listInferiors (internal/state/paths.go), tied by the dialects match, match-small (exhaustive small universe), match-baddelim, superiors, inferiors, getmatches (differential testing, not proof)",
